@@ -474,6 +474,100 @@ fn main() {
                 }
             }
         }
+        "narrow" => {
+            // C07, the rule of the append shortcut on the real code: one Nucleo (no items); text T, a tick (resets the pattern
+            // status), appended text T+S with append = true; when the status is Update, whatever the new pattern matches
+            // must match the old one - evaluated with Pattern::score on haystacks built from the new needles through
+            // "relatives" (other case, accented, characters whose case folding and normalization disagree)
+            use nucleo::{Config, Nucleo};
+            let count: usize = args[2].parse().unwrap();
+            let shard: u64 = args.get(3).map(|s| s.parse().unwrap()).unwrap_or(0);
+            rng = Rng::new(seed.wrapping_mul(15485863).wrapping_add(shard) ^ 0x4e41);
+            let mut n: Nucleo<u32> = Nucleo::new(Config::DEFAULT, std::sync::Arc::new(|| {}), Some(1), 1);
+            let mut matcher = Matcher::default();
+            const AL: &[char] = &[
+                'a', 'b', 'o', 'f', 'A', 'B', 'e', 's', 'k', 'i', ' ', ' ', '!', '^', '\'', '$', '\\', '-', '/', '1', '\u{e9}', '\u{c9}', '\u{2C65}', '\u{23A}',
+                '\u{185}', '\u{184}', '\u{17f}', '\u{3c3}', '\u{3c2}', '\u{e4}', '\u{c4}', '\u{4f60}', '\u{301}', '\u{212a}', '\u{130}', '\u{df}',
+            ];
+            const REL: &[&[char]] = &[
+                &['a', 'A', '\u{e1}', '\u{c1}', '\u{e4}', '\u{c4}', '\u{aa}', '\u{23A}', '\u{2C65}'],
+                &['e', 'E', '\u{e9}', '\u{c9}', '\u{ea}'],
+                &['s', 'S', '\u{17f}', '\u{df}', '\u{3c3}', '\u{3c2}', '\u{3a3}'],
+                &['b', 'B', '\u{184}', '\u{185}', '\u{180}'],
+                &['k', 'K', '\u{212a}'],
+                &['i', 'I', '\u{130}', '\u{131}', '\u{ed}'],
+                &['o', 'O', '\u{f3}', '\u{d6}', '\u{ba}'],
+                &['t', 'T', '\u{23e}', '\u{2c66}'],
+                &[' ', '\t', '\u{a0}'],
+            ];
+            let rel = |rng: &mut Rng, c: char| -> char {
+                for g in REL {
+                    if g.contains(&c) {
+                        return *rng.pick(g);
+                    }
+                }
+                if rng.chance(1, 2) { c.to_uppercase().next().unwrap_or(c) } else { c.to_lowercase().next().unwrap_or(c) }
+            };
+            for _ in 0..count {
+                let tl = rng.below(6) as usize;
+                let t: String = (0..tl).map(|_| *rng.pick(AL)).collect();
+                let sl = 1 + rng.below(3) as usize;
+                let app: String = (0..sl).map(|_| *rng.pick(AL)).collect();
+                let full = format!("{t}{app}");
+                n.pattern.reparse(0, &t, CaseMatching::Smart, Normalization::Smart, false);
+                n.tick(10);
+                n.pattern.reparse(0, &full, CaseMatching::Smart, Normalization::Smart, true);
+                let status = nucleo::verif::pattern_status(&n.pattern);
+                let old = Pattern::parse(&t, CaseMatching::Smart, Normalization::Smart);
+                let new = Pattern::parse(&full, CaseMatching::Smart, Normalization::Smart);
+                let mut bad = String::from("-");
+                let mut tried = 0u32;
+                let mut matched = 0u32;
+                if status == 1 {
+                    // haystacks: the new needles, character by character through a relative, with gaps and padding
+                    let base: Vec<char> = new.atoms.iter().filter(|a| !a.negative).flat_map(|a| a.needle_text().chars().chain(std::iter::once('/')).collect::<Vec<_>>()).collect();
+                    for k in 0..24 {
+                        let mut hay: Vec<char> = Vec::new();
+                        if k % 3 == 1 {
+                            hay.push(*rng.pick(&['x', ' ', '/']));
+                        }
+                        for &c in &base {
+                            if k >= 8 && rng.chance(1, 5) {
+                                hay.push(*rng.pick(&['x', '-', ' ']));
+                            }
+                            hay.push(if k == 0 { c } else { rel(&mut rng, c) });
+                        }
+                        if k % 4 == 2 {
+                            hay.push(*rng.pick(&['x', ' ']));
+                        }
+                        let hs: String = hay.iter().collect();
+                        let mut buf = Vec::new();
+                        let h = Utf32Str::new(&hs, &mut buf);
+                        tried += 1;
+                        if new.score(h, &mut matcher).is_some() {
+                            matched += 1;
+                            if old.score(h, &mut matcher).is_none() {
+                                bad = hex_cps(&hs.chars().collect::<Vec<_>>());
+                                break;
+                            }
+                        }
+                    }
+                }
+                writeln!(
+                    out,
+                    "W text={} app={} status={} tried={} matched={} bad={} oldatoms={} newatoms={}",
+                    if t.is_empty() { "-".to_string() } else { hex_cps(&t.chars().collect::<Vec<_>>()) },
+                    hex_cps(&app.chars().collect::<Vec<_>>()),
+                    status,
+                    tried,
+                    matched,
+                    bad,
+                    atoms_str(&old.atoms),
+                    atoms_str(&new.atoms)
+                )
+                .unwrap();
+            }
+        }
         "corpus" => {
             let stdin = std::io::stdin();
             for line in stdin.lock().lines() {
